@@ -78,7 +78,9 @@ CLAIMS = {
  'C15': dict(
     text='Proved for the model: slugify changes no state and returns an id that is not registered - the base slug if free, else base-n for the least free n >= 2; '
          'injectId lower-cases the id, registers it when new (no diagnostic) and otherwise issues exactly one duplicate-id diagnostic and registers nothing; the '
-         'attribute written is the lower-cased id. Sessions with colliding, empty and suffix-looking slugs are compared with a reference allocation.',
+         'attribute written is the lower-cased id; across any render call, in any session, the registry of ids stays free of duplicates (registry_stays_duplicate_free: an invariant '
+         'pushed through every function of the block layer). Sessions with colliding, empty and suffix-looking slugs, ids on every kind of block and per-call safe modes are '
+         'compared with a reference allocation.',
     note=COMMON_NOTE + 'str.lower is the generated per-character table plus the final-sigma rule (validated against CPython by the lower op of the driver, not proved).',
     technique='Lean 4 proof (suffix search by induction, registry state machine) + reference-allocation oracle',
     ref='7 C15'),
